@@ -277,10 +277,15 @@ def run_one(seed: int, tier: str) -> dict[str, Any]:
     from sim import seams as _seams
 
     _dl = float(__import__("os").environ.get("VERIF_DEADLINE", "0") or 0)
+    _lim = float(__import__("os").environ.get("VERIF_RUN_TIMEOUT_S", "600"))
     for (k, when) in pts:
         if _dl and _seams.REAL.time() > _dl:
             out["stats"]["sweeps_cut_by_deadline"] = 1
             break
+        if _dl:
+            # the driver's watchdog bounds one hung execution; a thorough sweep is hundreds of executions of one program
+            # and may legitimately take longer than that limit: re-arm it per execution (the worker cancels it afterwards)
+            __import__("faulthandler").dump_traceback_later(_lim, exit=True)
         second = None
         if tier == "thorough" and ch.flip("second", 0.25):
             second = [[ch.pick("second.off", 12), ch.choice("second.when", ["before", "after"])]]
